@@ -457,24 +457,33 @@ def arena_of(R):
     out = []
     for nd in R.nodes:
         t = nd["t"]
-        out.append(([R.index[id(c)] for c in t._children], bool(t.requires_grad), t.grad_fn is not None, bool(t._retain_grad)))
+        out.append(([R.index.get(id(c), 4999) for c in t._children], bool(t.requires_grad), t.grad_fn is not None, bool(t._retain_grad)))
     return out
 
 
 def creation_specs(R):
     """What was passed to Tensor.__init__: (gm, requested, children_arg indices)."""
-    return [(nd["gm"], nd["requested"], [R.index[id(c)] for c in nd["children_arg"]]) for nd in R.nodes]
+    return [(nd["gm"], nd["requested"], [R.index.get(id(c), 4999) for c in nd["children_arg"]]) for nd in R.nodes]
 
 
-def weights_of(R):
-    """Per node, per child slot, the 2x2 integer matrix of the local derivative (from the op semantics)."""
+def weights_of(R, problems=None):
+    """Per node, per child slot, the 2x2 integer matrix of the local derivative (from the op semantics).
+    A node whose recorded operands do not reproduce its value under the op semantics (or that records a tensor the harness never
+    saw) violates the wrapper contract `children = inputs`: that is reported in `problems`, not raised."""
     out = []
     for i, nd in enumerate(R.nodes):
         t = nd["t"]
         if not t._children:
             out.append([])
             continue
-        out.append(jacobians(t._operation, [c.data for c in t._children], R.params.get(i), t.data))
+        try:
+            out.append(jacobians(t._operation, [c.data for c in t._children], R.params.get(i), t.data))
+        except Exception as ex:
+            if problems is None:
+                raise
+            problems.append({"node": i, "operation": t._operation, "recorded_operands": len(t._children),
+                             "operands_passed_to_the_op": None, "problem": "%s: %s" % (type(ex).__name__, str(ex)[:160])})
+            out.append([[[0, 0], [0, 0]] for _ in t._children])
     return out
 
 
@@ -607,7 +616,8 @@ def history_case(E):
     arena = arena_of(R)
     # the node as it was when built: retain flags are set later by RetainGrad events
     at_build = [(ch, rq, fn, False) for (ch, rq, fn, rt) in arena]
-    W = weights_of(R)
+    E.problems = []
+    W = weights_of(R, E.problems)
     evs = clist([cevent(e, at_build, W) for e in E.events])
     exp = clist([cobs(o) for o in E.obs])
     specs = clist(["(%s,%s,%s)" % (cb(gm), cb(rq), cnatlist(cs)) for gm, rq, cs in creation_specs(R)])
@@ -637,7 +647,14 @@ def oracle_values(R):
                 deps.append(set())
             ndeps.append(set())
         else:
-            a = spec_apply(t._operation, [vals[c] for c in cs], R.params.get(i))
+            try:
+                a = spec_apply(t._operation, [vals[c] for c in cs], R.params.get(i))
+                if a.size != t.data.size:
+                    raise ValueError("size")
+            except Exception:
+                # the operands handed to Tensor.__init__ are not the op's inputs (contract violation, reported by the arena tie):
+                # the oracle cannot mirror this node; treat its value as recorded, gradient unknown -> constant
+                a = obj_array([Dual(to_frac(x)) for x in t.data.reshape(-1)], t.data.shape)
             d = set()
             for c in cs:
                 d |= deps[c]
@@ -1107,6 +1124,10 @@ def run_corr(ctx, execs, prefix, chunk=250):
             continue
         tm += [n * chunk + i for i in lists[0]]
         cm += [n * chunk + i for i in lists[1]]
+    # recorded operands that do not reproduce the forward value: a disagreement with the wrapper contract, found harness-side
+    for i, E in enumerate(execs):
+        if getattr(E, "problems", None) and i not in cm:
+            cm.append(i)
     return tm, cm, errs
 
 
@@ -1114,7 +1135,7 @@ def usable(E, limit=1 << 48):
     """Exactness guard: every number a buffer can hold during any of the calls stays far below 2^53."""
     R = E.R
     arena = arena_of(R)
-    W = weights_of(R)
+    W = weights_of(R, [])
     bufs = [None] * len(arena)
     for ev, ob in zip(E.events, E.obs):
         if ev[0] == "Backward":
